@@ -37,7 +37,7 @@ JudgeOne(i) ==
   IN PrintT("@@" \o ToJson([fam |-> "judge", idx |-> i,
         v |-> v @@ [c19 |-> o.panic = "", w19 |-> IF o.panic = "" THEN {} ELSE {o.panic}, kf19 |-> ""],
         l1 |-> [st |-> "", why |-> "", v |-> [c14 |-> TRUE, w14 |-> {}, c08 |-> TRUE, w08 |-> {}, c17 |-> TRUE, w17 |-> {},
-                                              c12 |-> TRUE, w12 |-> {}, c13 |-> TRUE, w13 |-> {}, c10 |-> TRUE, w10 |-> {}, c09 |-> TRUE, w09 |-> {}, c19 |-> TRUE, w19 |-> {}]]]))
+                                              c12 |-> TRUE, w12 |-> {}, c13 |-> TRUE, w13 |-> {}, c11 |-> TRUE, w11 |-> {}, c10 |-> TRUE, w10 |-> {}, c09 |-> TRUE, w09 |-> {}, c19 |-> TRUE, w19 |-> {}]]]))
 
 ASSUME \A i \in DOMAIN Obs : JudgeOne(i)
 =============================================================================
